@@ -19,7 +19,7 @@ PROFILE_CLI = {
     "n_inputs": (1, 3), "p_clim": 0.3, "p_has_obs": 0.9, "p_has_fcst": 1.0, "p_party_has": 0.95,
     "miss_rates": [0.0, 0.05, 0.15, 0.3], "p_keep_dim": 0.9, "n_times": (1, 4), "n_leadtimes": (1, 3),
     "n_locations": (1, 3), "p_pit": 0.3, "p_x0": 0.15, "p_ens": 0.3, "p_thr": 0.3, "p_q": 0.3, "p_other": 0.3,
-    "p_nc": 0.35,
+    "p_nc": 0.35, "p_no_id": 0.25,
 }
 
 
@@ -242,6 +242,10 @@ def gen_config_variant(rng, cmd):
     return argv, configs
 
 
+ENVVARS = [("COLUMNS", "40"), ("COLUMNS", "200"), ("LINES", "10"), ("LANG", "de_DE.UTF-8"), ("LC_ALL", "C"),
+           ("LC_NUMERIC", "de_DE.UTF-8"), ("USER", "someoneelse"), ("HOME", "/nonexistent"), ("TERM", "dumb"),
+           ("NO_COLOR", "1"), ("MPLCONFIGDIR", "/nonexistent"), ("COLUMNS", None)]
+
 ERRNOS = ["ENOENT", "EACCES", "EISDIR", "EMFILE", "EIO"]
 
 
@@ -294,6 +298,15 @@ def gen_spec_c13(seed, run, tier):
             extra = items[len(items):]
             b = list(cmd["files"]) + [t for g in b_groups for t in g]
             cases.append({"kind": "order", "sub": "override", "a": a, "b": b})
+            continue
+        if rng.random() < 0.03:
+            # switches that select what is drawn (-hist / -sort, both given): the picture must not depend on
+            # which comes first (compared by decoded pixels)
+            files = list(cmd["files"])[:2]
+            m = rng.choice(["obs", "fcst"])
+            a = files + ["-m", m, "-sort", "-hist", "-f", "out.png"]
+            b = files + ["-hist", "-m", m, "-f", "out.png", "-sort"] if rng.random() < 0.5 else ["-hist"] + files + ["-sort", "-f", "out.png", "-m", m]
+            cases.append({"kind": "order", "sub": "plot_switches", "a": a, "b": b})
             continue
         if r < 0.28:
             cases.append({"kind": "order", "a": plain(cmd), "b": linearise(rng, cmd)})
@@ -395,6 +408,15 @@ def gen_spec_c18cli(seed, run, tier):
             out.append({"kind": "env", "op": {"op": "tz", "zone": erng.choice(seams.ZONES)}})
         elif r < 0.45:
             out.append({"kind": "env", "op": {"op": "clock", "delta": erng.choice([1, -3600, 86400 * 400, -86400 * 365 * 20])}})
+        elif r < 0.55:
+            nm, val = erng.choice(ENVVARS)
+            out.append({"kind": "env", "op": {"op": "envvar", "name": nm, "value": val}})
+    no_id = any(p["layout"].get("no_id") for p in W.parties(world))
+    if no_id:
+        # station numbering is then verif's own: ask for it explicitly and compare across interpreters
+        files = [p["name"] for p in world["inputs"]]
+        out.insert(0, {"kind": "cmd", "argv": files + ["-m", "obs", "-x", "location", "-type", "csv"]})
+        out.insert(1, {"kind": "cmd", "argv": files + ["--list-locations"]})
     return {"prop": "C18", "engine": "B", "seed": seed, "run": run, "tier": tier, "world": world, "cases": out,
             "pinned": mrng.random() < 0.8, "pin_seed": 777,
-            "fresh": mrng.random() < (0.03 if tier == "quick" else 0.06)}
+            "fresh": no_id or mrng.random() < (0.03 if tier == "quick" else 0.06)}
